@@ -117,3 +117,61 @@ func importerCloseStage() {
 		}
 	}
 }
+
+// importLimitsStage: a memory import is linked only when the exporter's limits lie within the importer's declared ones
+// (exporter.min >= importer.min, exporter.max <= importer.max), for shared memories exactly as for unshared ones: the
+// importer's code was validated and compiled against ITS declaration, and the size it can ever observe is bounded by
+// its own declared maximum.  Every pair of declarations around the exporter's (1, 4); a linked importer then grows the
+// memory as far as it can: the size never exceeds what it declared.
+func importLimitsStage() {
+	ctx := context.Background()
+	for _, shared := range []bool{false, true} {
+		mx := uint32(4)
+		a := wb.New()
+		a.Memory(1, &mx, shared, "mem")
+		abin := a.Bytes()
+		for _, engine := range []string{"interpreter", "compiler"} {
+			for _, d := range [][2]uint32{{1, 4}, {1, 2}, {1, 3}, {1, 5}, {0, 4}, {2, 4}, {1, 65536}, {0, 65536}, {2, 2}} {
+				b := wb.New()
+				b.M.ImportSection = append(b.M.ImportSection, wasm.Import{Type: wasm.ExternTypeMemory, Module: "A", Name: "mem", DescMem: &wasm.Memory{Min: d[0], Max: d[1], IsMaxEncoded: true, IsShared: shared}})
+				b.M.ImportMemoryCount = 1
+				b.AddFunc(wb.Func{Params: []byte{wb.I32}, Results: []byte{wb.I32}, Export: "grow", Body: wb.Cat(wb.LocalGet(0), wb.MemoryGrow())})
+				b.AddFunc(wb.Func{Results: []byte{wb.I32}, Export: "size", Body: wb.MemorySize()})
+				rc := wazero.NewRuntimeConfigCompiler()
+				if engine == "interpreter" {
+					rc = wazero.NewRuntimeConfigInterpreter()
+				}
+				rt := wazero.NewRuntimeWithConfig(ctx, rc.WithCoreFeatures(features()))
+				if _, err := rt.InstantiateWithConfig(ctx, abin, wazero.NewModuleConfig().WithName("A")); err != nil {
+					hx.Fatal("import-limits stage: %v", err)
+				}
+				bm, err := rt.InstantiateWithConfig(ctx, b.Bytes(), wazero.NewModuleConfig().WithName("B"))
+				wantLink := d[0] <= 1 && d[1] >= 4
+				got := "linked"
+				if err != nil {
+					got = "refused"
+				}
+				over := ""
+				if err == nil {
+					for k := 0; k < 6; k++ {
+						bm.ExportedFunction("grow").Call(ctx, 1)
+					}
+					sz, _ := bm.ExportedFunction("size").Call(ctx)
+					if len(sz) == 1 && uint32(sz[0]) > d[1] {
+						over = fmt.Sprintf("; after growing, memory.size = %d pages > the importer's declared maximum %d", uint32(sz[0]), d[1])
+					}
+				}
+				rt.Close(ctx)
+				rep.Case(fmt.Sprintf("import-limits/%v/%s/%d-%d", shared, engine, d[0], d[1]))
+				if (got == "linked") != wantLink || over != "" {
+					rep.Violate(hx.Violation{Kind: "impl-violation", Signature: "C14:memory-import-limits-not-enforced:" + engine,
+						What:     fmt.Sprintf("%s: exporter (memory 1 4%s); importer declares (memory %d %d%s): %s%s", engine, map[bool]string{true: " shared"}[shared], d[0], d[1], map[bool]string{true: " shared"}[shared], got, over),
+						Input:    map[string]any{"stage": "import limits", "engine": engine, "shared": shared, "importer_min": d[0], "importer_max": d[1]},
+						Expected: map[bool]string{true: "linked", false: "refused"}[wantLink], Actual: got + over})
+				} else {
+					rep.Count("import-limits:" + got)
+				}
+			}
+		}
+	}
+}
